@@ -8,7 +8,9 @@ import (
 	"errors"
 	"fmt"
 	"math/bits"
+	"os"
 	"sort"
+	"sync"
 	"testing"
 
 	"github.com/scigolib/hdf5/internal/core"
@@ -183,7 +185,12 @@ func run(c Case) vt.Verdict {
 
 	fail := func(step int, op Op, format string, a ...any) vt.Verdict {
 		d := fmt.Sprintf("step %d (%s): ", step, op.K) + fmt.Sprintf(format, a...)
-		if indirect {
+		if indirect && os.Getenv("VERIF_C15_CLASSES") != "" {
+			classMu.Lock()
+			classes[format]++
+			classMu.Unlock()
+		}
+		if indirect && indirectClasses[format] {
 			return vt.KnownOr(kfIndirect, "%s", d)
 		}
 		return vt.Bad("%s", d)
@@ -480,6 +487,37 @@ func firstDiff(a, b []byte) int {
 	return n
 }
 
+// indirectClasses: the ways the open finding (heap grown beyond its first block: the indirect root exists only in memory,
+// ids of the later blocks are mis-addressed) shows itself on the unchanged tree, measured over 2.1 M histories. Any other
+// failure is a violation also after the heap has grown.
+var indirectClasses = map[string]bool{
+	"reader ReadObject(id %x, object #%d): %v":                                           true,
+	"same-size overwrite of live id %x: %v":                                              true,
+	"GetObject(id %x) returned %d bytes differing from the %d stored (first diff at %d)": true,
+	"delete of live id %x: %v":                                                           true,
+	"insert of %d bytes failed (%v) but changed the heap: %s":                            true,
+	"GetObject(live id %x, object #%d, %d bytes): %v":                                    true,
+	"live byte ranges overlap: [%d,%d) and [%d,%d)":                                      true,
+	"LoadFromFile of a freshly written heap: %v":                                         true,
+	"insert of %d bytes with %d/%d usable bytes consumed failed: %v":                     true,
+	"two live objects share id %x":                                                       true,
+	"OpenFractalHeap on the written image: %v":                                           true,
+}
+
+var (
+	classMu sync.Mutex
+	classes = map[string]int{}
+)
+
 func TestProp(t *testing.T) {
+	defer func() {
+		if p := os.Getenv("VERIF_C15_CLASSES"); p != "" {
+			f, _ := os.OpenFile(p, os.O_APPEND|os.O_CREATE|os.O_WRONLY, 0o644)
+			for k, v := range classes {
+				fmt.Fprintf(f, "%d\t%s\n", v, k)
+			}
+			f.Close()
+		}
+	}()
 	vt.Run(t, prop, vt.Sub[Case]{Prop: prop, Name: "history", Gen: genCase, Run: run, Classify: classify}.WithBudget(15000, 120000))
 }
